@@ -31,12 +31,12 @@ ObsEl(o) == IF o.k = "tbl"
             THEN [k |-> "tbl", cols |-> o.cols,
                   cells |-> [c \in 1..Len(o.cells) |-> [j \in 1..Len(o.cells[c]) |-> ObsItem(o.cells[c][j])]]]
             ELSE ObsItem(o)
-ObsState(e, origin, ninfo) ==
+ObsState(e, origin, ninfo, loose) ==
   [origin |-> origin,
    body |-> [i \in 1..Len(e.body) |-> ObsEl(e.body[i])],
    media |-> {[name |-> e.media[i].name, tok |-> e.media[i].tok] : i \in 1..Len(e.media)},
    rels |-> [i \in 1..Len(e.rels) |-> [id |-> e.rels[i].id, kind |-> e.rels[i].kind, tgt |-> e.rels[i].tgt]],
-   ctr |-> -1, ninfo |-> ninfo]
+   ctr |-> -1, ninfo |-> ninfo, loose |-> loose]
 
 \* wp:extent and a:ext of one picture must agree (both are "the displayed extent")
 PicItems(b) == UNION {IF b[i].k = "tbl" THEN UNION {{b[i].cells[c][j] : j \in 1..Len(b[i].cells[c])} : c \in 1..Len(b[i].cells)}
@@ -47,7 +47,7 @@ Viol_ExtPair(b) == {<<"extent-inconsistent", "wp:extent/a:ext", "">> :
 Judge(e) ==
   LET name == e.op.op
       exp  == Apply(cur, e.op)
-      obs  == ObsState(e, exp.origin, exp.ninfo)
+      obs  == ObsState(e, exp.origin, exp.ninfo, exp.loose)
       pre  == <<"C10", name, cur.origin>>
   IN  (IF e.ret = "panic" THEN {pre \o <<"panic", "", "">>} ELSE {})
       \cup (IF ~e.seen THEN {}
@@ -69,7 +69,7 @@ TStep == /\ l <= Len(Trace) /\ Trace[l].ev = "step"
             IN
               /\ wit' = AddWit(wit, Judge(e), e.case)
               \* resynchronise on what the implementation really did
-              /\ cur' = IF e.seen /\ e.saved = "ok" THEN ObsState(e, a.origin, a.ninfo)
+              /\ cur' = IF e.seen /\ e.saved = "ok" THEN ObsState(e, a.origin, a.ninfo, a.loose)
                         ELSE [a EXCEPT !.ctr = -1]
          /\ l' = l + 1
 
